@@ -307,6 +307,60 @@ func (a *Adversary) prePrepare(leader, round int64, wellFormed bool) *Msg {
 	return a.mk(qbft.MsgPrePrepare, leader, round, val, 0, 0, just)
 }
 
+// prePrepareLowest builds the well-formed proposal most dangerous to a decided value: a quorum of
+// ROUND-CHANGEs made of the coalition's own null ones plus the observed honest ones that report the
+// lowest prepared rounds, proposing the value prepared highest among those.
+func (a *Adversary) prePrepareLowest(leader, round int64) *Msg {
+	var cands []*Msg
+	for s, l := range a.rcs[round] {
+		if a.isByz(s) {
+			continue
+		}
+		best := l[0]
+		for _, m := range l {
+			if m.PR < best.PR {
+				best = m
+			}
+		}
+		cands = append(cands, best)
+	}
+	sort.Slice(cands, func(i, j int) bool {
+		if cands[i].PR != cands[j].PR {
+			return cands[i].PR < cands[j].PR
+		}
+
+		return cands[i].Src < cands[j].Src
+	})
+	need := Quorum(a.N) - len(a.Byz)
+	if len(cands) < need {
+		return nil
+	}
+	var qrc []*Msg
+	qrc = append(qrc, cands[:need]...)
+	for _, b := range a.Byz {
+		qrc = append(qrc, a.mk(qbft.MsgRoundChange, b, round, 0, 0, 0, nil).Flat())
+	}
+	var hmsg *Msg
+	just := make([]QMsg, 0, len(qrc)+a.N)
+	for _, rc := range qrc {
+		just = append(just, rc)
+		if rc.PR > 0 && (hmsg == nil || rc.PR > hmsg.PR) {
+			hmsg = rc
+		}
+	}
+	val := a.value()
+	if hmsg != nil {
+		val = hmsg.PV
+		if oj := a.rcJust[hmsg.ID]; len(oj) > 0 {
+			just = append(just, oj...)
+		} else {
+			just = append(just, a.prepareQuorum(hmsg.PR, hmsg.PV, true)...)
+		}
+	}
+
+	return a.mk(qbft.MsgPrePrepare, leader, round, val, 0, 0, just)
+}
+
 // decidedMsg fabricates a DECIDED.
 func (a *Adversary) decidedMsg(src int64, wellFormed bool) *Msg {
 	var keys []rv
